@@ -14,10 +14,14 @@ def server_context(ident, min_version=None, max_version=None, ciphers=None, requ
     ctx = ssl.SSLContext(ssl.PROTOCOL_TLS_SERVER)
     if ciphers:
         ctx.set_ciphers(ciphers)
-    if min_version is not None:
-        ctx.minimum_version = min_version
-    if max_version is not None:
-        ctx.maximum_version = max_version
+    import warnings
+
+    with warnings.catch_warnings():
+        warnings.simplefilter("ignore", DeprecationWarning)
+        if min_version is not None:
+            ctx.minimum_version = min_version
+        if max_version is not None:
+            ctx.maximum_version = max_version
     ctx.load_cert_chain(ident.certfile, ident.keyfile)
     if request_cert:
         ctx.verify_mode = ssl.CERT_OPTIONAL
